@@ -118,9 +118,10 @@ def run(ctx, rep):
     qs = list(s.calls('qsort'))
     rep.check(len(qs) == 1 and all(s.dominates(qs[0], t) for t in tls), 'R-C15-4', 'times sorted before limits are derived', s.file, '', function='state_scrub', construct='sort first')
 
-    quota_rule(P, rep, s, f, 5 if ctx.tier == 'quick' else 7)
+    dirty_bit_rule(P, rep, 'R-C15-8', 'state_scrub_process', {'info_set'})
+    roles = quota_rule(P, rep, s, f, 5 if ctx.tier == 'quick' else 7)
     info_word_rule(P, rep, 'R-C15-6')
-    plan_limits_rule(P, rep, s, {'full': full[0], 'bad': badp[0], 'new': newp[0]} if (len(full) == 1 and len(badp) == 1 and len(newp) == 1) else None, 'R-C15-7')
+    plan_limits_rule(P, rep, s, {'full': full[0], 'bad': badp[0], 'new': newp[0]} if (len(full) == 1 and len(badp) == 1 and len(newp) == 1) else None, 'R-C15-7', roles)
 
 
 def quota_rule(P, rep, s, be, nmax=5, rid='R-C15-5'):
@@ -144,6 +145,42 @@ def quota_rule(P, rep, s, be, nmax=5, rid='R-C15-5'):
     times = (16, 32, 48)        # multiples of 8: the low bits of an info word are flags
     bad = None
     n_runs = 0
+    # the locals of the region are identified by role, not by name: the array and its length are the arguments of qsort, the plan
+    # is the local of type struct snapraid_plan; the remaining inputs (read before written) are the quota (32 bit) and the age limit (64 bit)
+    def alloca_behind(o):
+        i = s.inst_of(o)
+        while i is not None and i.op in ('load', 'zext', 'sext', 'bitcast', 'trunc'):
+            j = s.inst_of(i.ops[0])
+            if i.op == 'load' and j is not None and j.op == 'alloca':
+                return j
+            i = j
+        return None
+    a_map, a_cnt = alloca_behind(qs[0].ops[0]), alloca_behind(qs[0].ops[1])
+    a_ps = [i for i in s.all_insts() if i.op == 'alloca' and (i.vty or '').replace('struct ', '').strip() == 'snapraid_plan']
+    if a_map is None or a_cnt is None or len(a_ps) != 1:
+        raise AnalysisBroken('state_scrub: time map / count / plan locals not identified from the qsort call and the plan type')
+    found = {}     # alloca id -> type, discovered over a few probes (an input may only be read once another one is non-zero)
+    for _ in range(3):
+        probe = region.Region(P, extern=lambda ins, args: (0,) if ins.callee == 'log_tag' else None)
+        probe.discover = []
+        pm = probe.local_by_id(s, a_map.id); probe.mem[(pm.reg, 0)] = probe.array('timemap', [16, 16], 8)
+        pc = probe.local_by_id(s, a_cnt.id); probe.mem[(pc.reg, 0)] = 2
+        pps = probe.local_by_id(s, a_ps[0].id)
+        probe.mem[(pps.reg, off['plan'])] = (1 << 32) - 1; probe.mem[(pps.reg, off['countlast'])] = 0
+        for aid_, ty_ in found.items():
+            pl_ = probe.local_by_id(s, aid_); probe.mem[(pl_.reg, 0)] = 2
+        try:
+            probe.run(s, qs[0].block, stop=lambda ins: ins.callee != 'log_tag', start_idx=qs[0].idx + 1)
+        except region.Stop:
+            pass
+        for aid, o_, ty in probe.discover:
+            if aid not in (a_map.id, a_cnt.id, a_ps[0].id):
+                found[aid] = ty
+    ins_ = list(found.items())
+    q32 = [aid for aid, ty in ins_ if ty == 'i32']; q64 = [aid for aid, ty in ins_ if ty == 'i64']
+    if len(set(q32)) != 1 or len(set(q64)) != 1:
+        raise AnalysisBroken('state_scrub: inputs of the limit derivation not identified (32-bit: %s, 64-bit: %s)' % (sorted(set(q32)), sorted(set(q64))))
+    a_quota, a_recent = q32[0], q64[0]
     for n in range(1, nmax + 1):
         for T in itertools.combinations_with_replacement(times, n):
             infos = None
@@ -151,12 +188,10 @@ def quota_rule(P, rep, s, be, nmax=5, rid='R-C15-5'):
                 for r in (8, 16, 24, 32, 40, 48):
                     cur = [0]
                     R = region.Region(P, extern=lambda ins, args: (0,) if ins.callee == 'log_tag' else ((cur[0],) if ins.callee == 'info_get' else None))
-                    R.set_local(s, 'countlimit', c)
-                    R.set_local(s, 'count', n)
-                    R.set_local(s, 'recentlimit', r)
-                    R.set_local(s, 'i', 0)
-                    R.set_local(s, 'timemap', R.array('timemap', list(T), 8))
-                    ps = R.local(s, 'ps')
+                    for aid_, v_ in ((a_quota, c), (a_cnt.id, n), (a_recent, r)):
+                        pl_ = R.local_by_id(s, aid_); R.mem[(pl_.reg, 0)] = v_
+                    pl_ = R.local_by_id(s, a_map.id); R.mem[(pl_.reg, 0)] = R.array('timemap', list(T), 8)
+                    ps = R.local_by_id(s, a_ps[0].id)
                     R.mem[(ps.reg, off['plan'])] = (1 << 32) - 1      # SCRUB_AUTO
                     R.mem[(ps.reg, off['countlast'])] = 0
                     if 'state' in off:
@@ -194,6 +229,7 @@ def quota_rule(P, rep, s, be, nmax=5, rid='R-C15-5'):
     if bad:
         rep.fail(rid, 'state_scrub quota derivation', s.file, bad, function='state_scrub', construct='quota derivation')
     rep.extra['quota_configurations'] = n_runs
+    return {'quota': a_quota, 'recent': a_recent, 'plan': a_ps[0].id}
 
 
 def info_word_rule(P, rep, rid):
@@ -218,7 +254,7 @@ def info_word_rule(P, rep, rid):
                               'decoded %s; after info_set_bad %s' % (got, gotb), function='info_make', construct='info word round trip')
 
 
-def plan_limits_rule(P, rep, s, consts, rid):
+def plan_limits_rule(P, rep, s, consts, rid, roles):
     """from the command line plan to the internal limits: state_scrub's prologue (up to the allocation of the time map) is
     integer-only; it is interpreted with time() = NOW and parity_allocated_size() = BM for every kind of plan"""
     rep.rule(rid, 'state_scrub prologue: percentage p gives a quota within [floor, ceil] of p% of the array (default 1/12), -o d gives the age limit now - d days (default 10), full/new/bad keep their plan constant', 60)
@@ -253,8 +289,8 @@ def plan_limits_rule(P, rep, s, consts, rid):
                 if stopped == 'exit':
                     rep.fail(rid, 'plan %d older %d' % (plan, older), s.file, 'a numeric plan with -o %d is refused' % older, function='state_scrub', construct='plan limits')
                     continue
-                cl = R.get_local(s, 'countlimit'); rl = R.get_local(s, 'recentlimit')
-                ps = R.local(s, 'ps'); pp = R.mem.get((ps.reg, poff['plan']))
+                cl = R.mem.get((R.local_by_id(s, roles['quota']).reg, 0)); rl = R.mem.get((R.local_by_id(s, roles['recent']).reg, 0))
+                ps = R.local_by_id(s, roles['plan']); pp = R.mem.get((ps.reg, poff['plan']))
                 num, den = (plan, 100) if plan >= 0 else (1, 12)
                 lo, hi = BM * num // den, -(-BM * num // den)
                 want_rl = NOW - (older if older >= 0 else 10) * DAY
@@ -262,7 +298,29 @@ def plan_limits_rule(P, rep, s, consts, rid):
                 rep.check(ok, rid, 'array %d stripes, plan %d%%, -o %d' % (BM, plan, older), s.file, 'quota %s (allowed %d..%d), age limit now-%s s, internal plan %s' % (cl, lo, hi, NOW - region.signed(rl, 64) if rl is not None else '?', pp), function='state_scrub', construct='plan limits')
     for name, c in sorted(consts.items()):
         R, stopped = run(100, c, -1)
-        ps = R.local(s, 'ps'); pp = R.mem.get((ps.reg, poff['plan']))
+        ps = R.local_by_id(s, roles['plan']); pp = R.mem.get((ps.reg, poff['plan']))
         rep.check(stopped != 'exit' and pp is not None and region.signed(pp, 32) == c, rid, 'plan %s keeps its constant' % name, s.file, 'internal plan %s for -p %s (%d)' % (pp, name, c), function='state_scrub', construct='plan constant %s' % name)
         R2, stopped2 = run(100, c, 5)
         rep.check(stopped2 == 'exit', rid, 'plan %s with -o is refused' % name, s.file, 'stopped at %s' % stopped2, function='state_scrub', construct='plan %s with -o' % name)
+
+
+def dirty_bit_rule(P, rep, rid, fname, modifiers):
+    """every change of persistent in-memory state inside a stripe loop (a new info word, a new block state) is followed, before the
+    next stripe and before the function returns, by state->need_write = 1 -- otherwise the command ends without saving it"""
+    f = P.fn(fname)
+    rep.rule(rid, '%s: every %s is followed by need_write = 1 before the next stripe / the end of the function' % (fname, '/'.join(sorted(modifiers))), 1)
+    nw = [i for i in f.all_insts() if i.op == 'store' and f.expr(i.ops[1]).endswith('->need_write') and f.const_of(i.ops[0]) == 1]
+    mods = [c for c in f.calls(modifiers)]
+    if not mods:
+        raise AnalysisBroken('%s: no call of %s' % (fname, sorted(modifiers)))
+    for c in mods:
+        h = f.loop_of(c.block)
+        outer = [hh for hh, bb in f.loops.items() if c.block in bb]
+        hdr = max(outer, key=lambda hh: len(f.loops[hh])) if outer else None
+        esc = f.reach([c], stop={x.id for x in nw})
+        bad = []
+        if hdr is not None and f.blocks[hdr][0].id in esc:
+            bad.append('the next stripe')
+        if any(r.id in esc for r in f.returns()):
+            bad.append('the end of the function')
+        rep.check(not bad, rid, '%s at line %s marks the state as modified' % (c.callee, c.line), c.loc(), 'need_write = 1 on every path' if not bad else 'reaches %s without state->need_write = 1: the change is lost when nothing else requests a save' % ' and '.join(bad), function=fname, construct='%s dirty bit' % c.callee)
